@@ -8,6 +8,7 @@ import (
 	"net/url"
 	"strings"
 	"sync"
+	"time"
 
 	"github.com/la5nta/wl2k-go/transport"
 )
@@ -290,6 +291,66 @@ func init() {
 		for _, s := range regSchemes {
 			transport.UnregisterDialer(s)
 		}
+		// a dial in flight must not hold up the registry (witness search for `mutex_guarded`'s dispatch clause)
+		{
+			entered, release := make(chan struct{}), make(chan struct{})
+			transport.RegisterDialer("vxblock", fnDialer(func(u *transport.URL) (net.Conn, error) {
+				close(entered)
+				<-release
+				return nil, errors.New("released")
+			}))
+			transport.RegisterDialer("vxfwd", fnDialer(func(u *transport.URL) (net.Conn, error) {
+				// a forwarding dialer: dials another scheme through the registry
+				return transport.DialURL(&transport.URL{Scheme: "vxinner", Target: u.Target})
+			}))
+			var innerHits []int
+			transport.RegisterDialer("vxinner", idDialer{7, &innerHits})
+			go transport.DialURL(&transport.URL{Scheme: "vxblock", Target: "LA1B"})
+			<-entered
+			stuck := false
+			within := func(name string, f func() string) {
+				done := make(chan string, 1)
+				go func() { done <- f() }()
+				select {
+				case r := <-done:
+					if r != "" {
+						c.Violate("C19:registry-dispatch-concurrent:"+name, "while another dial was in flight, "+name+": "+r, map[string]interface{}{"operation": name})
+					}
+				case <-time.After(2 * time.Second):
+					stuck = true
+					c.Violate("C19:dial-blocks-registry:"+name, name+" did not return within 2 s while a dial to another scheme was in flight (the registry lock is held across the dialer call)", map[string]interface{}{"operation": name, "in_flight": "DialURL(vxblock://LA1B) blocked inside its dialer"})
+				}
+			}
+			within("DialURL(unregistered scheme)", func() string {
+				if _, err := transport.DialURL(&transport.URL{Scheme: "vxmissing", Target: "LA1B"}); err != transport.ErrMissingDialer {
+					return fmt.Sprintf("err = %v, want ErrMissingDialer", err)
+				}
+				return ""
+			})
+			within("RegisterDialer+UnregisterDialer", func() string {
+				transport.RegisterDialer("vxtmp", idDialer{1, &innerHits})
+				transport.UnregisterDialer("vxtmp")
+				return ""
+			})
+			close(release)
+			within("DialURL through a forwarding dialer", func() string {
+				innerHits = innerHits[:0]
+				transport.DialURL(&transport.URL{Scheme: "vxfwd", Target: "LA1B"})
+				if len(innerHits) != 1 || innerHits[0] != 7 {
+					return fmt.Sprintf("inner dialer hits = %v, want [7]", innerHits)
+				}
+				return ""
+			})
+			for _, s := range []string{"vxblock", "vxfwd", "vxinner"} {
+				go transport.UnregisterDialer(s) // (would block for ever if the lock is stuck)
+			}
+			time.Sleep(20 * time.Millisecond)
+			if stuck {
+				// the registry mutex may be held for ever now: nothing below can run
+				c.Compare(cases)
+				return
+			}
+		}
 		// concurrent register/unregister/dial (witness search for the registry's mutex discipline; only
 		// meaningful in the -race build, harmless otherwise)
 		{
@@ -326,6 +387,10 @@ func init() {
 		c.Compare(cases)
 	})
 }
+
+type fnDialer func(u *transport.URL) (net.Conn, error)
+
+func (f fnDialer) DialURL(u *transport.URL) (net.Conn, error) { return f(u) }
 
 func isASCII(s string) bool {
 	for i := 0; i < len(s); i++ {
